@@ -1,5 +1,6 @@
 import OntVerif.Proofs.Wallet
 import OntVerif.Gen.WalletImport
+import OntVerif.Gen.WalletScrypt
 /-!
 # C38 — Wallet persists its accounts and only opens them with the current password
 
@@ -57,6 +58,25 @@ theorem C38_import_fields :
       [("Label", "Label"), ("PubKey", "PubKey"), ("SigSch", "SigSch"), ("Key", "Key"), ("Alg", "KeyType"),
        ("Address", "Address"), ("EncAlg", "EncAlg"), ("Hash", "Hash"), ("Salt", "Salt"), ("Param", "Curve"), ("Label", "")] := by
   decide
+
+/-- **Frame: another wallet.** Opening (and using) another wallet file in the same process is a no-op on this wallet: every
+`WalletData` owns the `Scrypt` object it decodes its file into (`C38_scrypt_sources`). -/
+theorem C38_other_wallet_frame (w : W cr) (prm : Nat) : w.step (.openOther prm) = (.ok, w) := rfl
+
+/-- **The scrypt parameters are per-wallet state** that no operation sequence changes — creations, imports, password changes,
+reopening, and other wallets being opened with other parameters included. (With `C38_password`: an account sealed under the
+wallet's parameters keeps opening with its current password whatever else happens in the process.) -/
+theorem C38_params_stable (w0 : W cr) (h0 : Inv w0) (ops : List Op) : (W.run w0 ops).prm = w0.prm := run_prm h0 ops
+
+/-- where a wallet's `Scrypt` object comes from, regenerated from `account/file_store.go` by factgen on every run:
+`NewWalletData` and the default branch of `reencrypt` take it from a call (`keypair.GetScryptParameters()` returns a fresh
+object), never from a package-level variable. The one package-level `ScryptParam` of the package, `lowSecurityParam`, is
+mentioned only by `ToLowSecurity`, which hands `&lowSecurityParam` to `reencrypt` (`this.Scrypt = param`: that wallet then
+aliases the variable — today only on the throw-away `Clone()` of `account export --low-security`, which is never loaded into). -/
+theorem C38_scrypt_sources :
+    OntVerif.Gen.WalletScrypt.newWalletScrypt = "call:keypair.GetScryptParameters" ∧
+    OntVerif.Gen.WalletScrypt.reencryptAssigns = ["ident:param", "call:keypair.GetScryptParameters"] ∧
+    OntVerif.Gen.WalletScrypt.pkgScryptVarUses = [("lowSecurityParam", ["ToLowSecurity"])] := by decide
 
 /-- **Reload (all operation sequences).** Closing and reopening the wallet (`load ∘ save`; every successful mutation has
 saved) changes nothing observable: account count, metadata by index / address / label, the default account, and for every
